@@ -25,7 +25,8 @@ PROP = dict(
                              "c13_formats/act:plc": 50, "c13_formats/act:fec": 50, "c13_formats/fec-with-lbrr": 5,
                              "c13_formats/enc-silk": 20, "c13_formats/enc-hybrid": 10, "c13_formats/enc-celt": 50,
                              "c13_formats/proj-custom-matrix": 20, "c13_formats/proj-order-1": 10,
-                             "c13_formats/proj-sum-beyond-16bit": 5, "c13_formats/multi-stream": 20}},
+                             "c13_formats/proj-sum-beyond-16bit": 5, "c13_formats/proj-sum-beyond-16bit-builtin": 5,
+                             "c13_formats/ms-enc-surround": 5, "c13_formats/ms-enc-ambisonics": 5, "c13_formats/multi-stream": 20}},
     exhaustive_parts={},
     assumptions=["Float build only (the property's exactness claims are about the float build; all relations are exact there: scaling by "
                  "powers of two and one shared native path).",
@@ -35,7 +36,11 @@ PROP = dict(
                  "24-bit relation is skipped for float samples with |x| >= 255 (2^23 x no longer fits 32 bits; that overflow is C19 / F5).",
                  "Projection: per-stream 16/24-bit and float samples are taken from twin multistream decoders with the trivial mapping "
                  "(their equality with stand-alone decoding is C10).  Samples whose exact demixed sum leaves [-32768,32767] are excluded "
-                 "from the saturation clause while known finding F6 is open."],
+                 "from the saturation clause while known finding F6 is open.",
+                 "Square projection geometries only (channels == streams + coupled, as for every ambisonics order): the decoder rejects more channels "
+                 "and silently ignores matrix columns >= channels when given fewer.",
+                 "Encoder final range is compared only when a packet was produced (after an error return opus_encode keeps the previous value while "
+                 "opus_encode_float reports 0).  An error from a packet-source encoder ends the history (labelled source-encoder-error)."],
 )
 
 TEXT = dict(
